@@ -25,7 +25,7 @@ For each mutant k in 1..3 create the directory /tmp/{mut}_{pid}/k/ containing:
   - patch.diff : output of `git -C /tmp/wt_{pid} diff` for that mutant alone (must apply to the clean worktree with `git -C /tmp/wt_{pid} apply patch.diff`);
   - demo.py : a small stand-alone program (imports torch/torchphysics only) that exits with status 0 on the clean tree and with a non-zero status (assert failure) on the mutated tree, demonstrating the property violation through public API behaviour; run it as `PYTHONPATH=/tmp/wt_{pid}/src /venv/bin/python demo.py`. It must be deterministic (seed torch if it samples) and must check the property itself (e.g. by an independent computation), not internal identifiers;
   - notes.md : which property it breaks, what it needs in order to manifest, and the exact commands you ran with their results (test suite with the mutant: pass/fail summary; demo with and without the mutant).
-Verify all of that yourself: with the patch applied run the full test suite and the demo; with the patch reverted (`git -C /tmp/wt_{pid} checkout -- .`) run the demo again. Keep only mutants for which everything holds; if one fails the existing tests, replace it by another. Work on one mutant at a time and ALWAYS leave the worktree clean (git checkout -- .) before starting the next one and at the end.
+Verify all of that yourself: with the patch applied run the full test suite and the demo; with the patch reverted (`git -C /tmp/wt_{pid} checkout -- .`) run the demo again. NEVER use `git stash` (the stash is shared between all worktrees of the repository and other agents work in sibling worktrees): keep your change in a patch file and use `git apply` / `git checkout -- .` only. Keep only mutants for which everything holds; if one fails the existing tests, replace it by another. Work on one mutant at a time and ALWAYS leave the worktree clean (git checkout -- .) before starting the next one and at the end.
 
 {extra}
 Final answer: a short list of the mutants you kept (directory, one-line description, what it needs to manifest).""")
